@@ -35,7 +35,10 @@ def gen(rng, count, tier):
                     'elem': 'scalar', 'params': params, 'base': 1000 * (j + 1)}
             if j == 0 and rng.random() < 0.3 and n >= 7:
                 # the input iterable itself raises after some chunks were handed out; the caller catches it
-                call.update(input='gen_raising', raise_at=rng.choice([n - 1, n - 2, n // 2 + 1]), expect_exc='RuntimeError')
+                # (unordered variants only: an ordered call cut short by its own input leaves the ordering flag set --
+                #  finding D17, adjacent to C06, outside this property)
+                call.update(input='gen_raising', raise_at=rng.choice([n - 1, n - 2, n // 2 + 1]), expect_exc='RuntimeError',
+                            kind=rng.choice(['map_unordered', 'imap_unordered']))
                 call['params'] = {'chunk_size': rng.choice([1, 2]), 'iterable_len': n}
             calls.append(call)
         if calls and calls[-1].get('expect_exc') and len([c for c in calls if 'n' in c]) == 1:
